@@ -26,7 +26,7 @@ def r1(ctx, table):
     rule = "C06.R1"
     ctx.rule(rule, "T5 must-check-before-success (primitives): the value is compared with each bound, an error of the documented "
                    "kind is built under that decision, and every emitting call other than the extension bit (whose argument is the "
-                   "comparison result) is dominated by a switch on the comparison")
+                   "comparison result) is dominated by a switch on the comparison; no `Ok` return is reachable on a path around that decision")
     P = ctx.program()
     n = 0
     for e in table["primitives"]:
@@ -131,9 +131,61 @@ def r3(ctx):
     ctx.floor(rule, len(counts.get("ValueNotInRange", [])), "C06.R3.ValueNotInRange")
 
 
+def r4(ctx):
+    from .. import intervals as I
+    rule = "C06.R4"
+    ctx.rule(rule, "T7 alphabet table: for every Charset variant the set of characters Charset::is_valid accepts - obtained by interval "
+                   "partitioning of its comparisons, no value is executed - equals the alphabet of X.680 clause 41 "
+                   "(tables/x680_charsets.json); is_valid is what ensure_string_valid, and through it every restricted-string "
+                   "writer, rejects by")
+    P = ctx.program()
+    with open(os.path.join(VERIF, "tables", "x680_charsets.json")) as fh:
+        table = json.load(fh)
+    try:
+        b = P.one("asn1rs_model", "Charset::is_valid")
+    except KeyError as e:
+        ctx.fail(rule, "anchor-lost:Charset::is_valid", str(e))
+        return
+    pn = b.param_names()
+    cidx = [i for i, n in pn.items() if i != 1]
+    if len(cidx) != 1:
+        ctx.fail(rule, "anchor-lost:char-parameter", "Charset::is_valid has parameters %s" % pn, "%s:%d" % (b.file, b.line))
+        return
+    O = X.Origins(b, P)
+    n = 0
+    arms = {a.path[0][1]: a for a in R.match_tables(P, b, O) if len(a.path) == 1}
+    for v, want in sorted(table.items()):
+        if v.startswith("_"):
+            continue
+        a = arms.get(v)
+        if a is None:
+            ctx.fail(rule, "Charset::" + v, "is_valid has no arm for Charset::%s" % v, "%s:%d" % (b.file, b.line))
+            continue
+        got, imprecise = I.accepted(P, b, a.target, cidx[0])
+        n += 1
+        want = [tuple(x) for x in want]
+        detail = {"variant": v, "accepted": got, "x680": want, "imprecise": imprecise}
+        if imprecise:
+            ctx.fail(rule, "Charset::%s#not-a-decision-table" % v, "the arm of Charset::%s is no longer a pure comparison table over the "
+                                                                  "character: its alphabet cannot be read off" % v, "%s:%d" % (b.file, b.line), detail)
+        elif got != want:
+            extra = I.minus(got, want)
+            missing = I.minus(want, got)
+            ctx.fail(rule, "Charset::" + v, "Charset::%s accepts %s%s: %s" % (
+                v, ("also code points %s" % extra) if extra else "", (" not code points %s" % missing) if missing else "",
+                "a character outside the type's alphabet is encoded (and decodes as another one)" if extra else
+                "a permitted character is rejected"), "%s:%d" % (b.file, b.line), detail)
+        else:
+            ctx.ok(rule, "Charset::" + v, detail)
+    for v in sorted(set(arms) - set(table)):
+        ctx.fail(rule, "Charset::%s#no-table" % v, "Charset::%s has no alphabet in tables/x680_charsets.json" % v, "%s:%d" % (b.file, b.line))
+    ctx.floor(rule, n, "C06.R4.alphabets")
+
+
 def run(ctx):
     with open(os.path.join(VERIF, "tables", "c06.json")) as fh:
         table = json.load(fh)
     r1(ctx, table)
     r2(ctx, table)
     r3(ctx)
+    r4(ctx)
